@@ -1,4 +1,5 @@
 """C17 - analysed input is never executed (DESIGN.md section 6, C17)."""
+import ast
 import os
 import random
 from collections import OrderedDict
@@ -218,3 +219,81 @@ ob("C17", "import.find_module_filepath", {"which": R(0, 2), "with_sub": BOOL, "m
    funcs=["cdd.shared.pure_utils.find_module_filepath"],
    bound="find_module_filepath on a scratch package whose modules write a sentinel file when executed: top-level / nested module / (module, SYMBOL name as taken from `from m import Symbol`), (module, submodule) or dotted form, "
          "existing or missing (solver-enumerated): the looked-up module's code does not run and it does not enter sys.modules")(lookup_does_not_import)
+
+
+# code.*: defaults / attribute values of the ANALYSED CODE are expressions (calls, dunder chains, arithmetic, __import__): the code parsers must treat them as data ----
+def _all_cdd_modules():
+    import cdd.argparse_function.parse  # noqa: F401
+    import cdd.class_.parse  # noqa: F401
+    import cdd.function.parse  # noqa: F401
+    import cdd.pydantic.parse  # noqa: F401
+    import cdd.sqlalchemy.emit  # noqa: F401  (import order: see C18 in DESIGN.md)
+    import cdd.sqlalchemy.parse  # noqa: F401
+
+    return tuple(m for k, m in sorted(sys.modules.items()) if k.startswith("cdd.") and ".tests" not in k and m is not None
+                 and k not in ("cdd.compound.sync_properties", "cdd.compound.gen"))
+
+
+def _expr(shape, i, j, c):
+    """an adversarial expression AST with solver-chosen constants / one symbolic identifier character; all harmless when really evaluated"""
+    K = ast.Constant
+    name = "f" + chr(c)
+    if shape == 0:
+        return ast.BinOp(left=K(value=i), op=ast.Mult(), right=K(value=j))  # constant arithmetic: tempting to fold
+    if shape == 1:
+        return ast.Call(func=ast.Name(id=name, ctx=ast.Load()), args=[K(value=i)], keywords=[])
+    if shape == 2:  # ().__class__.__base__.__subclasses__()
+        chain = ast.Attribute(value=ast.Attribute(value=ast.Attribute(value=ast.Tuple(elts=[], ctx=ast.Load()), attr="__class__", ctx=ast.Load()), attr="__base__", ctx=ast.Load()),
+                              attr="__subclasses__", ctx=ast.Load())
+        return ast.Call(func=chain, args=[], keywords=[])
+    if shape == 3:
+        return ast.Call(func=ast.Name(id="__import__", ctx=ast.Load()), args=[K(value="o" + chr(c))], keywords=[])
+    if shape == 4:
+        return ast.Subscript(value=ast.Dict(keys=[K(value=i)], values=[K(value=j)]), slice=K(value=i), ctx=ast.Load())
+    if shape == 5:
+        return ast.BinOp(left=K(value=i), op=ast.Pow(), right=ast.UnaryOp(op=ast.USub(), operand=K(value=j)))
+    if shape == 6:
+        return ast.Call(func=ast.Attribute(value=K(value="a" + chr(c)), attr="upper", ctx=ast.Load()), args=[], keywords=[])
+    return ast.IfExp(test=K(value=i), body=K(value=j), orelse=ast.Call(func=ast.Name(id=name, ctx=ast.Load()), args=[], keywords=[]))
+
+
+def _code(kind):
+    def body(e0, e1, shape, i, j, c):
+        import cdd.docstring.utils.parse_utils as pu
+
+        doc = ast.Expr(value=ast.Constant(value="\n    Doc.\n\n    :param a: the a\n\n    :param b: the b\n    "))
+        if kind == "function":
+            import cdd.function.parse as P
+
+            node = ast.FunctionDef(name="f", args=ast.arguments(posonlyargs=[], args=[ast.arg(arg="a", annotation=None), ast.arg(arg="b", annotation=ast.Name(id="int", ctx=ast.Load()))],
+                                                                 vararg=None, kwonlyargs=[], kw_defaults=[], kwarg=None, defaults=[_expr(shape, i, j, c), _expr(shape, j, i, c)]),
+                                   body=[doc, ast.Return(value=ast.Constant(value=None))], decorator_list=[], returns=None, lineno=1, col_offset=0)
+            fn = P.function
+        else:
+            import cdd.class_.parse as P
+
+            cdoc = ast.Expr(value=ast.Constant(value="\n    Doc.\n\n    :cvar a: the a\n\n    :cvar b: the b\n    "))
+            node = ast.ClassDef(name="K", bases=[], keywords=[], decorator_list=[], lineno=1, col_offset=0,
+                                body=[cdoc, ast.AnnAssign(target=ast.Name(id="a", ctx=ast.Store()), annotation=ast.Name(id="int", ctx=ast.Load()), value=_expr(shape, i, j, c), simple=1),
+                                      ast.Assign(targets=[ast.Name(id="b", ctx=ast.Store())], value=_expr(shape, j, i, c), lineno=3)])
+            fn = P.class_
+        ast.fix_missing_locations(node)
+        with monitored(_all_cdd_modules(), (e0, e1)) as mon, shim(pu, **ADHOC_SHIMS):
+            try:
+                fn(node)
+            except Exception:
+                pass
+        return verdict(mon)
+
+    body.__name__ = "code_" + kind
+    return body
+
+
+for _kind in ("function", "class"):
+    ob("C17", "code.%s" % _kind, {"e0": BOOL, "e1": BOOL, "shape": R(0, 7), "i": R(-2, 60), "j": R(0, 3), "c": R(97, 122)}, T=600, tpath=60,
+       funcs=["cdd.%s.parse.%s" % (("function", "function") if _kind == "function" else ("class_", "class_")), "cdd.shared.docstring_parsers._infer_default",
+              "cdd.shared.parse.utils.parser_utils.ir_merge", "cdd.shared.ast_utils.get_value"],
+       assumes=[STUB_DOC, ADHOC_SHIMS_DOC, "eval/exec/compile/__import__/import_module/open-for-write are shadowed in EVERY loaded cdd module except sync_properties and gen (the documented --input-eval / gen exceptions)"],
+       bound="a %s whose two defaults/values are expression ASTs of 8 shapes (constant arithmetic i*j and i**-j, call of a name, ().__class__.__base__.__subclasses__(), "
+             "__import__('o?'), dict subscript, method call on a str constant, conditional with a call) with solver-chosen constants i in -2..60, j in 0..3 and one symbolic identifier letter: "
+             "no sink is reached and nothing outside the safe grammar reaches eval" % _kind)(_code(_kind))
